@@ -209,68 +209,176 @@ func checkC08(c *Ctx) {
 	}
 
 	// ---- C08.arity
+	// The count test may live in evalExecBlock or in a helper it calls (parameters are followed to the
+	// helper's static call sites): the binding sites must lie on the equal edge of the test in their own
+	// function, and the body must run only on that edge / after the helper returned no error.
 	if f := u.ssaFunc("pkg/exec", "evalExecBlock"); f != nil {
-		var guard *ssa.BasicBlock
-		eqIdx := 1
-		for _, b := range f.Blocks {
-			ifi, ok := b.Instrs[len(b.Instrs)-1].(*ssa.If)
-			if !ok {
-				continue
-			}
-			bo, ok := ifi.Cond.(*ssa.BinOp)
-			if !ok || (bo.Op != token.NEQ && bo.Op != token.EQL) {
-				continue
-			}
-			isLenOf := func(v ssa.Value, pred func(ssa.Value) bool) bool {
-				return flowsFrom(v, func(x ssa.Value) bool {
-					call, ok := x.(*ssa.Call)
-					if !ok {
-						return false
+		var originsOf func(v ssa.Value, depth int) map[string]bool
+		originsOf = func(v ssa.Value, depth int) map[string]bool {
+			out := map[string]bool{}
+			for _, src := range allSources(v) {
+				switch x := src.(type) {
+				case *ssa.Parameter:
+					fn := x.Parent()
+					idx := -1
+					for i, q := range fn.Params {
+						if q == x {
+							idx = i
+						}
 					}
-					bi, ok := call.Call.Value.(*ssa.Builtin)
-					return ok && bi.Name() == "len" && pred(call.Call.Args[0])
-				})
+					if fn == f && idx == 2 {
+						out["params"] = true
+						continue
+					}
+					if depth >= 3 || idx < 0 {
+						continue
+					}
+					for _, cs := range u.staticCallers(fn) {
+						if idx < len(cs.Common().Args) {
+							for o := range originsOf(cs.Common().Args[idx], depth+1) {
+								out[o] = true
+							}
+						}
+					}
+				case *ssa.UnOp:
+					if fa, ok := x.X.(*ssa.FieldAddr); ok && x.Op == token.MUL && fieldAddrName(fa) == "ExecBlock.InputBlock" {
+						out["input"] = true
+					}
+				}
 			}
-			isParams := func(v ssa.Value) bool { return v == ssa.Value(f.Params[2]) }
-			isInput := func(v ssa.Value) bool {
-				un, ok := v.(*ssa.UnOp)
+			return out
+		}
+		lenOrigin := func(v ssa.Value) string {
+			o := ""
+			flowsFrom(v, func(x ssa.Value) bool {
+				if a, ok := lenArg(x); ok {
+					os := originsOf(a, 0)
+					if len(os) == 1 {
+						for k := range os {
+							o = k
+						}
+					}
+					return true
+				}
+				return false
+			})
+			return o
+		}
+		type arityGuard struct {
+			fn      *ssa.Function
+			b       *ssa.BasicBlock
+			eq, neq *ssa.BasicBlock
+		}
+		var guards []arityGuard
+		for _, g := range u.srcFuncs("pkg/exec") {
+			for _, b := range g.Blocks {
+				ifi, ok := b.Instrs[len(b.Instrs)-1].(*ssa.If)
 				if !ok {
-					return false
+					continue
 				}
-				fa, ok := un.X.(*ssa.FieldAddr)
-				return ok && fieldAddrName(fa) == "ExecBlock.InputBlock"
-			}
-			if (isLenOf(bo.X, isParams) && isLenOf(bo.Y, isInput)) || (isLenOf(bo.Y, isParams) && isLenOf(bo.X, isInput)) {
-				guard = b
-				if bo.Op == token.EQL {
-					eqIdx = 0
+				bo, ok := ifi.Cond.(*ssa.BinOp)
+				if !ok || (bo.Op != token.NEQ && bo.Op != token.EQL) {
+					continue
 				}
+				if _, isLen := lenArg(bo.X); !isLen && !flowsFrom(bo.X, func(x ssa.Value) bool { _, ok := lenArg(x); return ok }) {
+					continue
+				}
+				ox, oy := lenOrigin(bo.X), lenOrigin(bo.Y)
+				if !(ox == "params" && oy == "input" || ox == "input" && oy == "params") {
+					continue
+				}
+				ag := arityGuard{fn: g, b: b, eq: b.Succs[0], neq: b.Succs[1]}
+				if bo.Op == token.NEQ {
+					ag.eq, ag.neq = b.Succs[1], b.Succs[0]
+				}
+				guards = append(guards, ag)
 			}
 		}
-		ok := guard != nil
+		ok := len(guards) == 1
+		why := "no (or more than one) test of len(params) against len(InputBlock) found"
 		nDom := 0
 		if ok {
-			eq := guard.Succs[eqIdx]
-			for _, in := range instrsOf(f) {
-				if isCallTo(u, in, "pkg/runtime.VM.DeclareConstElement", "pkg/runtime.VM.DeclareElement", "pkg/exec.evalStmtBlock") {
-					// the 此 injection precedes the check by design (no parameter involved)
-					if call := in.(ssa.CallInstruction); nameOrigin(u, call.Common().Args[len(call.Common().Args)-2]) == "此" {
+			g := guards[0]
+			why = ""
+			// unequal edge returns an error
+			for _, rr := range returnsReachable(g.neq, 0, nil) {
+				if ev := errorOperand(rr.Ret); ev == nil || isNilConst(ev) {
+					ok, why = false, "the unequal edge of the count test can return without an error"
+				}
+			}
+			// a helper enforces the count when each of its returns that may carry a nil error lies on the equal edge
+			enforces := true
+			if g.fn != f {
+				for _, b := range g.fn.Blocks {
+					ret, isRet := b.Instrs[len(b.Instrs)-1].(*ssa.Return)
+					if !isRet {
+						continue
+					}
+					ev := errorOperand(ret)
+					if ev == nil {
+						enforces = false
+					} else if !provablyNonNilError(ev) && !edgeDominates(g.b, g.eq, b) {
+						enforces = false
+					}
+				}
+			}
+			protected := func(in ssa.Instruction) bool {
+				fn := in.Parent()
+				if fn == g.fn {
+					return edgeDominates(g.b, g.eq, in.Block())
+				}
+				if !enforces {
+					return false
+				}
+				// dominated by the nil-error edge of a call of the helper
+				for _, cs := range u.staticCallers(g.fn) {
+					if cs.Parent() != fn || cs.Value() == nil {
+						continue
+					}
+					errV := errResult(cs)
+					if errV == nil {
+						continue
+					}
+					for _, t := range nilTests(fn) {
+						if t.X == errV && edgeDominates(t.If.Block(), t.OnNil, in.Block()) {
+							return true
+						}
+					}
+				}
+				return false
+			}
+			for _, h := range u.srcFuncs("pkg/exec") {
+				for _, in := range instrsOf(h) {
+					call, isCall := in.(ssa.CallInstruction)
+					if !isCall {
+						continue
+					}
+					switch {
+					case isCallTo(u, in, "pkg/runtime.VM.DeclareConstElement", "pkg/runtime.VM.DeclareElement"):
+						bindsParam := false
+						for _, o := range nameOrigins(u, call.Common().Args[1]) {
+							if o == "ExecBlock.InputBlock" {
+								bindsParam = true
+							}
+						}
+						if !bindsParam {
+							continue
+						}
+					case isCallTo(u, in, "pkg/exec.evalStmtBlock") && h == f:
+					default:
 						continue
 					}
 					nDom++
-					if !edgeDominates(guard, eq, in.Block()) {
-						ok = false
+					if !protected(in) {
+						ok, why = false, "a parameter is bound or the body runs at "+u.pos(in.Pos())+" without the parameter-count check"
 					}
 				}
 			}
-			// unequal edge returns an error
-			for _, rr := range returnsReachable(guard.Succs[1-eqIdx], 0, nil) {
-				if ev := errorOperand(rr.Ret); ev == nil || isNilConst(ev) {
-					ok = false
-				}
-			}
 		}
-		R.check(ok && nDom >= 2, "C08.arity", "pkg/exec.evalExecBlock", u.pos(f.Pos()), "a parameter-count mismatch is an error and no parameter is bound nor any statement run before the check", "parameters are bound or the body runs without the parameter-count check")
+		if ok && nDom < 2 {
+			ok, why = false, "parameter binding / body execution sites not found"
+		}
+		R.check(ok, "C08.arity", "pkg/exec.evalExecBlock", u.pos(f.Pos()), "a parameter-count mismatch is an error and no parameter is bound nor any statement run before the check", "parameters are bound or the body runs without the parameter-count check: "+why)
 	} else {
 		R.lost("C08.arity", "pkg/exec.evalExecBlock")
 	}
